@@ -16,7 +16,10 @@ CLAIMED = {
             "termination) and NfaRun (all NFA(2,{a,b}) x words: verdict = accepting run exists in the configuration "
             "graph); the real epsilon_closure / N.E / nfa_accepts_word / dfa_accepts_word are bound to the same "
             "definitions by judging one event per automaton (all of NFA(2,{a,b}), random NFAs/DFAs up to 6 states) "
-            "with TLC. Bounded, not a proof.",
+            "with TLC; (T) the closure loop's pops reported by hooks are validated against the model's step "
+            "function, (G) every closure schedule TLC enumerates on 3 states is forced onto the real loop; the "
+            "loop's partial correctness is additionally PROVED for arbitrary graphs with TLAPS "
+            "(spec/proofs/EpsClosureProof.tla, 45 obligations).  Acceptance itself is bounded, not proved.",
             "trusted: TLC, the JSON projection harness/abstraction.py, FA.tla's definitions (cross-checked by "
             "Lemmas); bounds: <= 6 states, words <= 4",
             "TLA+ models (TLC exhaustive) + TLC trace validation of recorded calls"),
@@ -33,8 +36,11 @@ CLAIMED = {
             "Quotient (first-fit regrouping with arbitrary element order / representative), TableFill (every state "
             "order, in-place sweeps, assembly) - over all DFA(3,{a,b}) (DFA(4,*) in thorough): final partition = "
             "Myhill-Nerode partition, result valid/equivalent/pairwise distinguishable/count within bounds, input "
-            "unchanged, termination.  Every real result of the three minimisers on the same universe (seven naming "
-            "schemes, several hash seeds) + random DFAs is judged by TLC against FA.tla.",
+            "unchanged, termination.  Every real result of the three minimisers on the same universe (eight naming "
+            "schemes, several hash seeds) + random DFAs is judged by TLC against FA.tla; (T) observed Hopcroft "
+            "schedules are validated against the model's step function; (G) every Hopcroft splitter schedule and "
+            "every order of list(Q) for table filling that TLC enumerates on DFA(3,{a,b}) (33k + 35k) is forced "
+            "onto the real code (hooks) and the final partition compared with the model's.",
             "trusted: TLC, harness/abstraction.py, FA.tla; <= 7 states; one recorded finding (names with commas)",
             "TLA+ models with nondeterministic set order (TLC exhaustive) + TLC trace validation of recorded calls"),
     "C05": ("5/C05",
@@ -67,8 +73,9 @@ CLAIMED = {
             "DFA(2,{a,b}) x DFA(3,{a,b}), DFA(3,{a})^2: answer = existence of a bijection (brute force), termination; "
             "the model also shows the pinned variant and an 'inverse-only' repair to be wrong.  Both real variants on "
             "all 4096 ordered pairs of DFA(2,{a,b}), both argument orders, renamed copies (+ flipped bit), unreachable "
-            "states, duplicated states are judged by TLC; calls that do not return within 3 s count as "
-            "non-termination.",
+            "states, duplicated and near-duplicated states are judged by TLC; (T) observed pick sequences are "
+            "replayed through the model's step function; (G) all 4352 pick schedules TLC enumerates are forced onto "
+            "the real dfa_isomorphic1; calls burning more than 3 s of CPU count as non-termination.",
             "trusted: TLC, abstraction.py, FA.tla IsoExists; wall-clock limit for termination",
             "TLA+ model with nondeterministic pick order (TLC exhaustive) + TLC trace validation"),
     "C18": ("5/C18, Appendix D",
@@ -96,7 +103,9 @@ CLAIMED = {
             "closure whatever the order, language of every variable preserved (words <= 3).  Every phase of the real "
             "pipeline, cfg_to_chomsky and cfg_apply_chomsky are judged by TLC per call: valid grammar, the phase's "
             "postcondition, language equal on all words <= 3 (4) by the fix-point on both sides, number of introduced "
-            "variables, CNF at the end, input unchanged; grammars with 23-27 variables included.",
+            "variables, CNF at the end, input unchanged; grammars with 23-27 variables included; (T) observed visiting "
+            "orders are replayed through the model's step function down to the exact rule list; (G) every "
+            "visiting order TLC enumerates (5.9k) is forced onto the real cfg_eliminate_unit_rules.",
             "trusted: TLC, abstraction.py, CFG.tla; CFG equivalence undecidable - bounded word length",
             "TLA+ model with nondeterministic visiting order (TLC exhaustive) + TLC trace validation"),
     "C02": ("5/C02",
@@ -125,10 +134,12 @@ CLAIMED = {
             "PDA->CFG) on the sampled 2-state universe, hand-written PDAs (acceptance with non-empty stack, markers "
             "already in the stack alphabet, replace/no-op moves, several/no accepting states) and random PDAs is judged "
             "by TLC: valid, language equal on all words <= 3 (saturation semantics vs derivability fix-point), "
-            "push/pop only, accepting configurations have an empty stack, input unchanged.  Trace validation against "
-            "the reference semantics only; the algorithm model PdaNormal is listed as future growth.",
+            "push/pop only, accepting configurations have an empty stack, input unchanged.  TLC also checks "
+            "PdaNormal.tla (the three normal forms and the triple construction as phases; all PDAs with <= 2 (3) moves "
+            "on 2 states, names clashing with the fresh names): language preserved after every phase; its pinned "
+            "variant (no drain state) reproduces the defect that was fixed.",
             "trusted: TLC, abstraction.py, PDA.tla, CFG.tla; bounded word length (the statement asks for a bound)",
-            "TLC trace validation of recorded calls against TLA+ reference semantics"),
+            "TLA+ phase model (TLC exhaustive) + TLC trace validation of recorded calls"),
     "C11": ("5/C11",
             "TLC checks TmRun.tla (the step loop with a budget) over all 169 one-working-state TMs on {a,_} (6859 on "
             "{a,b,_} in thorough) x words <= 2: configuration k equals the reference configuration function, verdict "
@@ -144,7 +155,9 @@ CLAIMED = {
             "with Mode = pinned the same model reproduces the hang that was fixed.  Every returned run of "
             "dfa/nfa/pda_simulate_word and every derivation of cfg_derive_word IS a trace and is validated step by "
             "step by TLC against the automaton's / grammar's own step relation (JWIT.tla, CFG.tla), None iff rejected; "
-            "8 (32) hash seeds; calls not returning within 4 s count as non-termination.",
+            "8 (32) hash seeds; calls burning more than 4 s of CPU count as non-termination; (T) the pops and examined "
+            "edges of nfa_find_epsilon_path reported by hooks are replayed through the same step functions the "
+            "model is tied to (PathFixedAgrees).",
             "trusted: TLC, abstraction.py, FA/PDA/CFG.tla; wall-clock limit for termination",
             "TLA+ model with nondeterministic orders (TLC exhaustive) + TLC validation of the implementation's own traces"),
     "C16": ("5/C16",
@@ -152,10 +165,11 @@ CLAIMED = {
             "automata and grammars must be identical field by field; regular expressions (three syntaxes) must denote "
             "the same language (exact, Glushkov + subset product) and re-print identically.  Universes: DFA(3,{a,b}) "
             "under five naming schemes, NFA(2,{a,b}), the PDA/TM universes of C09/C11, empty alphabets, states named "
-            "like other formats' keywords, all trees <= 2 (3) operators, simple-format grammars.  Trace validation "
-            "only: the printers are pure functions; the line parser they are composed with is modelled under C17.",
+            "like other formats' keywords, all trees <= 2 (3) operators, simple-format grammars.  TLC also checks "
+            "RoundTrip.tla: the printer composed with the line-parser model of C17 gives back every DFA(2/3,{a,b}) "
+            "and every 2-state NFA, for every order in which an edge's labels may be printed.",
             "trusted: TLC, abstraction.py, Regex.tla; character-level lexing is exercised, not modelled",
-            "TLC trace validation of recorded print/parse round trips"),
+            "TLA+ composition model (TLC exhaustive) + TLC trace validation of recorded round trips"),
     "C17": ("5/C17, Appendix C",
             "Text.tla states declaratively which descriptions are well formed and which automaton one denotes "
             "(order-free, with the documented defaults).  LineParser.tla models parse_line + the DFA/NFA builders "
